@@ -58,7 +58,7 @@ func init() {
 		ID:          "C36",
 		Explanation: "RI/RJ: over the module functions reachable (VTA call graph) from the query bodies, task.run and Canonicalize, no clock/random/environment primitive is called outside the reviewed stopwatch, and every map / sync.Map iteration is order-insensitive by idiom or reviewed (diagnostics pushed in map order are sorted by Canonicalize before being observable). RC4: Run returns a report only after Canonicalize and nothing is appended afterwards. RU: every field of report.Diagnostic must be a sort key of Canonicalize (directly, or through Primary()); un-keyed observable fields make the canonical order depend on the input order and are reported. RU2: on every path of Canonicalize each mutation of r.Diagnostics besides the sort (assignment, marking, slices.DeleteFunc, function literal or same-package callee doing so) is preceded by the sort, so which duplicate survives is decided over the sorted slice. RU3: inside package incremental a task's report is handed out by address only in (*Task).Report and otherwise written only on the leader-only section of task.run (success edge of result.CompareAndSwap(nil, …)); *Task values bound to a task are created only there — one writer per task report on every schedule.",
 		NotDecided:  "idempotence of de-duplication; determinism of the diagnostics each query produces",
-		Rules:       []func(*World){rc4Incremental, ruCanonicalize, ru2SortBeforeDedup, ru3ReportSingleWriter, ru4KeysUnconditional, ru5CollectionReadOnly, riIncremental},
+		Rules:       []func(*World){rc4Incremental, ruCanonicalize, ru2SortBeforeDedup, ru3ReportSingleWriter, ru4KeysUnconditional, ru5CollectionReadOnly, riIncremental, rcIncremental},
 	})
 	register(&Property{
 		ID:          "C37",
@@ -70,7 +70,7 @@ func init() {
 		ID:          "C27",
 		Explanation: "RNC: no function of the experimental descriptor generator (experimental/fdp) narrows or sign-converts a 32/64-bit integer without dominating range guards (a default or number rendered through the wrong signedness differs from the stable compiler). RDV: the function of experimental/fdp that assigns FieldDescriptorProto.DefaultValue must render float defaults with a bit size that depends on the field (a `float` default is a 32-bit value; the stable compiler prints its shortest float32 form) and must look up an enum default by the name written (the ir value keeps only the number, which aliases share). RSB: the stable and the experimental validator report a canonical enum-value-name conflict only at points reached with the two values' numbers known to differ (branch-sensitive dataflow), so aliases are accepted by both. RS: the accept flag of ir.(*Session).Lower is computed by a comparison of Diagnostic.Level() with constants which, evaluated over the whole Level domain with go/constant, clears ok exactly for {ICE, Error}.",
 		NotDecided:  "agreement of verdicts and descriptors between the two compilers (differential, value-level)",
-		Rules:       []func(*World){rsLower, rncFDP, rdvDefaultRendering, rsbEnumNameConflict, rfcFrameCountNotDropped},
+		Rules:       []func(*World){rsLower, rncFDP, rdvDefaultRendering, rsbEnumNameConflict, rfcFrameCountNotDropped, rixViewIndex},
 	})
 	register(&Property{
 		ID:          "C04",
@@ -118,7 +118,7 @@ func init() {
 		ID:          "C29",
 		Explanation: "RV: in lexer.loop every path from an increment of lexer.badBytes to the function's end passes a flush (flushUnrecognized/keyword/push); badBytes is written only by loop and the flush helper. RV2: every `return false` of lexPrelude on non-empty input must have pushed tokens (today's bail-outs do not: known findings).",
 		NotDecided:  "that pushed lengths sum to the cursor advance on every path (arithmetic); bracket fusion",
-		Rules:       []func(*World){rvLexer, rv3PreludeEncodingGate, rw3RuneErrorWidth, rv4ConsumedTextNotDropped},
+		Rules:       []func(*World){rvLexer, rv3PreludeEncodingGate, rw3RuneErrorWidth, rv4ConsumedTextNotDropped, rv6DispatchImpliesConsumption, rv7TokenStartAccounting},
 	})
 	register(&Property{
 		ID:          "C38",
@@ -136,13 +136,13 @@ func init() {
 		ID:          "C32",
 		Explanation: "RUD: a dimension (units) checker over experimental/source's location and inverseLocation. Inside the switch clause for length.Unit X the column is a quantity in X; range keys over strings, len, slice bounds and line offsets are quantities in bytes; utf16.RuneLen is in UTF-16 units. Every `x = e`, `x += e`, `x -= e` and `a ± b` whose sides both have a known unit must combine equal units (constants are polymorphic); a per-character step inside `range <string>` may only drive a quantity in runes. Both switches must have a clause for every length.Unit constant (computed from the package).",
 		NotDecided:  "the arithmetic itself (that the computed column/offset is the right number of the right unit), the line table, behaviour for offsets that are not on a character boundary; only the necessary condition that byte offsets are never combined with counts of another unit is decided",
-		Rules:       []func(*World){rudUnits},
+		Rules:       []func(*World){rudUnits, rud2LineTable},
 	})
 	register(&Property{
 		ID:          "C40",
 		Explanation: "RIK: key discipline of internal/interval. Both collections keep their entries in an ordered map keyed by the entry's End; every Set(k, e) of an *Entry must store it under its own End (Set(e.End, e) or Set(k, &Entry{End: k})), and the End of an *Entry is never assigned after construction (splitting moves Start and creates new entries), so an entry in the tree never sits under a stale key.",
 		NotDecided:  "the interval arithmetic of Insert (which pieces are created, their bounds, the value lists and their aliasing), Get's result, the nesting classification: all value-level; only the key invariant those rely on is decided",
-		Rules:       []func(*World){rikIntervalKeys, rik2NonEmptyPieces},
+		Rules:       []func(*World){rikIntervalKeys, rik2NonEmptyPieces, rik3ValueListsNotShared, rik4NestingStrict},
 	})
 	register(&Property{
 		ID:          "C41",
@@ -196,13 +196,13 @@ func init() {
 		ID:          "C25",
 		Explanation: "RP restricted to the parser's and the fast scanner's string decoders (same tables), plus modifier agreement: the import modifiers fastscan.Scan recognises equal the keyword alternatives of importDecl in parser/proto.y.",
 		NotDecided:  "statement boundary detection over arbitrary token streams; package name assembly",
-		Rules:       []func(*World){rpC25, rp3C25, rp5C25, rp6ScannerStateReset},
+		Rules:       []func(*World){rpC25, rp3C25, rp5C25, rp6ScannerStateReset, rp8NoBoundedLineReads},
 	})
 	register(&Property{
 		ID:          "C26",
 		Explanation: "RP writer↔reader: every simple escape internal.EscapeBytes emits is decoded by linker.unescape to the same byte; the writer's octal form is exactly three digits and the reader consumes at most three; all octal digits introduce the octal branch in the reader; EscapeBytes reads its input only through len(data)/data[i] (a per-byte map, so table agreement covers every input).",
 		NotDecided:  "protobuf-go's own unescaper (quick tier); strconv/utf8 are trusted",
-		Rules:       []func(*World){rpC26},
+		Rules:       []func(*World){rpC26, rp7UnescapeShortGuard},
 	})
 	register(&Property{
 		ID:          "C11",
